@@ -80,6 +80,8 @@ func (t *cthread) Yield(point int, ch <-chan struct{}) {
 
 func init() { engines["conc"] = runConc }
 
+var unknownKinds = []xdsresource.ResourceType{77, -1, 0, 6, -1000000, 2147483647, 42, -2147483648}
+
 func stampedResource(rt string, stamp uint64) xdsresource.Resource {
 	switch rt {
 	case "cds":
@@ -227,7 +229,8 @@ func runConc(raw json.RawMessage) (out interface{}, err error) {
 			ctx := manager.VerifWithScheduler(base, th)
 			kind := rtNames[rt]
 			if ev.Kind == 1 {
-				kind = xdsresource.ResourceType(77)
+				// a kind the manager does not know: beyond the range, zero, negative, extreme
+				kind = unknownKinds[(c.ID+ev.T)%len(unknownKinds)]
 			}
 			go func() {
 				var r getRet
